@@ -6,7 +6,7 @@ cd "$(dirname "$0")/.."
 for x in $LET; do
   d=/tmp/mut/$ID.out/$x
   [ -f $d/patch.diff ] || { echo "$ID$x: no deliverable"; continue; }
-  jq --argjson w 6 '. + {wave:$w}' $d/meta.json > $d/meta.json.n 2>/dev/null && mv $d/meta.json.n $d/meta.json
+  jq --argjson w ${WAVE_N:-6} '. + {wave:$w}' $d/meta.json > $d/meta.json.n 2>/dev/null && mv $d/meta.json.n $d/meta.json
   tools/confirm_seed.sh $d $ID$x "" 2>&1 | tail -4
   if [ -d seeded/$ID$x ]; then tools/mutest_scratch.sh /verif/seeded/$ID$x/patch.diff $ID 2>&1 | tail -8; fi
 done
